@@ -10,7 +10,8 @@
 (*                             C10: oxidd_rules_mtbdd::terminal::{I64,F64} *)
 (* whose expected values are computed here (Natural.tla, NumArith.tla).    *)
 (* The obligation name carries the operator and the case class: it is the  *)
-(* signature of a finding.  A case that the specification does not decide  *)
+(* signature of a finding (a panic of the code under test appends "!panic" *)
+(* to the name of its case).  A case that the specification does not decide *)
 (* is accepted and counted (U); the counters are written to <TRACE>.stat   *)
 (* with the last event.  A `panic` result is an observation like any other *)
 (* and falsifies the obligation of its case.                               *)
@@ -70,7 +71,7 @@ NatAddObs(r) ==
         x == NAdd(a, b)
         cls == IF x.dec /\ x.v.nan /\ IsNum(a) /\ IsNum(b) THEN "exp_overflow" ELSE AddClass(a, b)
     IN  IF ~x.dec THEN << U(P12, "natural.add:far_exponents") >>
-        ELSE IF Panicked(r) THEN << O(P12, "natural.add:" \o cls, FALSE) >>
+        ELSE IF Panicked(r) THEN << O(P12, "natural.add:" \o cls \o "!panic", FALSE) >>
         ELSE << O(P12, "natural.add:" \o cls, NatResOk(r) /\ NObs(r.res.v) = x.v),
                 O(P12, "natural.canonical:add", NatResOk(r) /\ NCanonical(r.res.v)) >>
 TrNatAdd == Ev("nat_add") /\ Step(NatAddObs(Rec[l]))
@@ -85,7 +86,7 @@ ShiftObs(r, left) ==
                ELSE IF x.nan THEN (IF left THEN "exp_overflow" ELSE "inexact")
                ELSE (IF left THEN "plain" ELSE "exact")
         name == (IF left THEN "natural.shl:" ELSE "natural.shr:") \o cls
-    IN  IF Panicked(r) THEN << O(P12, name, FALSE) >>
+    IN  IF Panicked(r) THEN << O(P12, name \o "!panic", FALSE) >>
         ELSE << O(P12, name, NatResOk(r) /\ NObs(r.res.v) = x),
                 O(P12, IF left THEN "natural.canonical:shl" ELSE "natural.canonical:shr",
                   NatResOk(r) /\ NCanonical(r.res.v)) >>
@@ -105,7 +106,7 @@ NatCmpObs(r) ==
                ELSE IF a.m = <<>> \/ b.m = <<>> THEN "zero"
                ELSE IF NBitWidth(a) # NBitWidth(b) THEN "bit_width" ELSE "aligned"
         v == r.res
-    IN  IF Panicked(r) THEN << O(P12, "natural.cmp:" \o cls, FALSE) >>
+    IN  IF Panicked(r) THEN << O(P12, "natural.cmp:" \o cls \o "!panic", FALSE) >>
         ELSE IF a.nan /\ b.nan THEN
           << O(P12, "natural.cmp:nan", v.cmp \in {"none", "eq"}),
              O(P12, "natural.eq:nan", v.eq),
@@ -125,7 +126,7 @@ TrNatCmp == Ev("nat_cmp") /\ Step(NatCmpObs(Rec[l]))
 NatFromObs(r) ==
   IF ~IsLimbs(r.x) THEN << O(P12, "natural.transport", FALSE) >>
   ELSE LET name == "natural.from_" \o r.ty IN
-       IF Panicked(r) THEN << O(P12, name, FALSE) >>
+       IF Panicked(r) THEN << O(P12, name \o "!panic", FALSE) >>
        ELSE << O(P12, name, NatResOk(r) /\ NObs(r.res.v) = NFromLimbs(r.x)),
                O(P12, "natural.canonical:from_" \o r.ty, NatResOk(r) /\ NCanonical(r.res.v)) >>
 TrNatFrom == Ev("nat_from") /\ Step(NatFromObs(Rec[l]))
@@ -133,7 +134,7 @@ TrNatFrom == Ev("nat_from") /\ Step(NatFromObs(Rec[l]))
 NatDigitsObs(r) ==
   IF ~(\A i \in 1 .. Len(r.ds) : IsLimbs(r.ds[i]) /\ LCmp(r.ds[i], Two64) < 0)
   THEN << O(P12, "natural.transport", FALSE) >>
-  ELSE IF Panicked(r) THEN << O(P12, "natural.from_le_digits", FALSE) >>
+  ELSE IF Panicked(r) THEN << O(P12, "natural.from_le_digits" \o "!panic", FALSE) >>
   ELSE << O(P12, "natural.from_le_digits", NatResOk(r) /\ NObs(r.res.v) = NFromLimbs(FromDigits64(r.ds))),
           O(P12, "natural.canonical:from_le_digits", NatResOk(r) /\ NCanonical(r.res.v)) >>
 TrNatDigits == Ev("nat_digits") /\ Step(NatDigitsObs(Rec[l]))
@@ -145,7 +146,7 @@ NatTryObs(r) ==
         x == NToU(a, IF r.ty = "u64" THEN 64 ELSE 128)
         cls == IF a.nan THEN "nan" ELSE IF x.ok THEN "fits" ELSE "too_big"
         name == "natural.try_" \o r.ty \o ":" \o cls
-    IN  IF Panicked(r) THEN << O(P12, name, FALSE) >>
+    IN  IF Panicked(r) THEN << O(P12, name \o "!panic", FALSE) >>
         ELSE << O(P12, name, r.res.v.ok = x.ok /\ (x.ok => r.res.v.x = x.x)) >>
 TrNatTry == Ev("nat_try") /\ Step(NatTryObs(Rec[l]))
 
@@ -158,7 +159,7 @@ NatF64Obs(r) ==
                ELSE IF x.x = 2047 THEN "inf"
                ELSE IF BitLen(a.m) <= 53 THEN "exact" ELSE "rounded"
         name == "natural.to_f64:" \o cls
-    IN  IF Panicked(r) THEN << O(P12, name, FALSE) >>
+    IN  IF Panicked(r) THEN << O(P12, name \o "!panic", FALSE) >>
         ELSE LET v == r.res.v IN
              IF ~FWellFormed(v) THEN << O(P12, "natural.transport", FALSE) >>
              ELSE IF x.nan THEN << O(P12, name, v.x = 2047 /\ v.f # <<>>) >>
@@ -167,7 +168,7 @@ TrNatF64 == Ev("nat_f64") /\ Step(NatF64Obs(Rec[l]))
 
 NatBwObs(r) ==
   IF ~NWellFormed(r.a) THEN << O(P12, "natural.transport", FALSE) >>
-  ELSE IF Panicked(r) THEN << O(P12, "natural.bit_width", FALSE) >>
+  ELSE IF Panicked(r) THEN << O(P12, "natural.bit_width" \o "!panic", FALSE) >>
   ELSE << O(P12, "natural.bit_width", r.res.v = NBitWidth(NObs(r.a))) >>
 TrNatBw == Ev("nat_bw") /\ Step(NatBwObs(Rec[l]))
 
@@ -178,7 +179,7 @@ NatFmtObs(r) ==
     LET a == NObs(r.a)
         sp == [alt |-> r.alt, plus |-> r.plus, zero |-> r.zero, width |-> r.width, fill |-> r.fill, align |-> r.align]
     IN  IF a.nan THEN
-          (IF Panicked(r) THEN << O(P12, "natural.fmt.nan", FALSE) >>
+          (IF Panicked(r) THEN << O(P12, "natural.fmt.nan" \o "!panic", FALSE) >>
            ELSE << O(P12, "natural.fmt.nan", FmtNaNOk(r.res.v, sp)) >>)
         ELSE IF ~NSmallExp(a) THEN << U(P12, "natural.fmt:huge") >>
         ELSE
@@ -188,14 +189,14 @@ NatFmtObs(r) ==
                      \o (IF FmtPads(ds, pre, sp) THEN (IF sp.zero THEN "zeropad" ELSE "pad") ELSE "nopad")
                      \o (IF sp.plus \/ (sp.alt /\ pre # <<>>) THEN "+prefix" ELSE "")
               name == "natural.fmt." \o RadixName(r.radix) \o ":" \o cls
-          IN  IF Panicked(r) THEN << O(P12, name, FALSE) >>
+          IN  IF Panicked(r) THEN << O(P12, name \o "!panic", FALSE) >>
               ELSE << O(P12, name, r.res.v = FmtInt(ds, pre, sp)) >>
 TrNatFmt == Ev("nat_fmt") /\ Step(NatFmtObs(Rec[l]))
 
 (* clone_from: the destination becomes a copy of the source *)
 NatCloneObs(r) ==
   IF ~(NWellFormed(r.dst) /\ NWellFormed(r.src)) THEN << O(P12, "natural.transport", FALSE) >>
-  ELSE IF Panicked(r) THEN << O(P12, "natural.clone_from", FALSE) >>
+  ELSE IF Panicked(r) THEN << O(P12, "natural.clone_from" \o "!panic", FALSE) >>
   ELSE << O(P12, "natural.clone_from",
             /\ NatResOk(r) /\ NObs(r.res.v) = NObs(r.src)
             /\ NWellFormed(r.res.sum0) /\ NObs(r.res.sum0) = NObs(r.src)) >>
@@ -209,7 +210,7 @@ I64OpObs(r) ==
   ELSE
     LET x == I64Op(r.op, IDec(r.a), IDec(r.b))
         name == "i64." \o r.op \o ":" \o x.cls
-    IN  IF Panicked(r) THEN << O(P10, name, FALSE) >>
+    IN  IF Panicked(r) THEN << O(P10, name \o "!panic", FALSE) >>
         ELSE << O(P10, name, IWellFormed(r.res.v) /\ IDec(r.res.v) = x.v) >>
 TrI64Op == Ev("i64_op") /\ Step(I64OpObs(Rec[l]))
 
@@ -222,7 +223,7 @@ CmpObs(P, pre, x, v) ==
 I64CmpObs(r) ==
   IF ~(IWellFormed(r.a) /\ IWellFormed(r.b)) THEN << O(P10, "i64.transport", FALSE) >>
   ELSE LET x == ICmp(IDec(r.a), IDec(r.b)) IN
-       IF Panicked(r) THEN << O(P10, "i64.cmp:" \o x.cls, FALSE) >>
+       IF Panicked(r) THEN << O(P10, "i64.cmp:" \o x.cls \o "!panic", FALSE) >>
        ELSE CmpObs(P10, "i64", x, r.res)
 TrI64Cmp == Ev("i64_cmp") /\ Step(I64CmpObs(Rec[l]))
 
@@ -232,7 +233,7 @@ TrI64Cmp == Ev("i64_cmp") /\ Step(I64CmpObs(Rec[l]))
    not documented and not constrained. *)
 I64UnaryObs(r) ==
   IF ~IWellFormed(r.a) THEN << O(P10, "i64.transport", FALSE) >>
-  ELSE IF Panicked(r) THEN << O(P10, "i64.display", FALSE) >>
+  ELSE IF Panicked(r) THEN << O(P10, "i64.display" \o "!panic", FALSE) >>
   ELSE
     LET a == IDec(r.a)
         v == r.res
@@ -249,7 +250,7 @@ F64OpObs(r) ==
   ELSE
     LET x == F64Op(r.op, FDec(r.a), FDec(r.b))
         name == "f64." \o r.op \o ":" \o x.cls
-    IN  IF Panicked(r) THEN << O(P10, name, FALSE) >>
+    IN  IF Panicked(r) THEN << O(P10, name \o "!panic", FALSE) >>
         ELSE IF ~FWellFormed(r.res.v) THEN << O(P10, "f64.transport", FALSE) >>
         ELSE << IF x.dec THEN O(P10, name, FDec(r.res.v) = x.v) ELSE U(P10, name),
                 O(P10, "f64.normalised:" \o r.op, FIsNormalised(r.res.v)) >>
@@ -258,14 +259,14 @@ TrF64Op == Ev("f64_op") /\ Step(F64OpObs(Rec[l]))
 F64CmpObs(r) ==
   IF ~(FWellFormed(r.a) /\ FWellFormed(r.b)) THEN << O(P10, "f64.transport", FALSE) >>
   ELSE LET x == FCmp(FDec(r.a), FDec(r.b)) IN
-       IF Panicked(r) THEN << O(P10, "f64.cmp:" \o x.cls, FALSE) >>
+       IF Panicked(r) THEN << O(P10, "f64.cmp:" \o x.cls \o "!panic", FALSE) >>
        ELSE CmpObs(P10, "f64", x, r.res)
 TrF64Cmp == Ev("f64_cmp") /\ Step(F64CmpObs(Rec[l]))
 
 (* construction normalises; every other value is kept bit for bit *)
 F64FromObs(r) ==
   IF ~FWellFormed(r.x) THEN << O(P10, "f64.transport", FALSE) >>
-  ELSE IF Panicked(r) THEN << O(P10, "f64.from", FALSE) >>
+  ELSE IF Panicked(r) THEN << O(P10, "f64.from" \o "!panic", FALSE) >>
   ELSE IF ~FWellFormed(r.res.v) THEN << O(P10, "f64.transport", FALSE) >>
   ELSE LET isnan == r.x.x = 2047 /\ r.x.f # <<>>
            isz == r.x.x = 0 /\ r.x.f = <<>>
@@ -278,7 +279,7 @@ TrF64From == Ev("f64_from") /\ Step(F64FromObs(Rec[l]))
 
 (* a parsed value is a value of the type: in normal form *)
 F64ParseObs(r) ==
-  IF Panicked(r) THEN << O(P10, "f64.parse", FALSE) >>
+  IF Panicked(r) THEN << O(P10, "f64.parse" \o "!panic", FALSE) >>
   ELSE IF ~r.res.some THEN <<>>
   ELSE IF ~FWellFormed(r.res.v) THEN << O(P10, "f64.transport", FALSE) >>
   ELSE << O(P10, "f64.parse:normalised", FIsNormalised(r.res.v)) >>
